@@ -38,6 +38,10 @@ PROPS = {
             "rule": "one evaluation = one plan of 2-20 (thorough: 40) operations over {NMT command x target x DLC, CONodeStart, CONmtSetMode, CONmtReset, CONodeStop + re-init, one probe per service (SDO upload, RPDO, SYNC, heartbeat of the monitored node, LSS, foreign frame, EMCY set/clear, TPDO trigger, one heartbeat period)}; after every operation mode, boot-up count, callbacks, emitted frames and object side effects are compared with the NMT/gating model; variants give an RPDO the SYNC or the SDO COB-ID; non-trivial = the mode changed at least once; distinct = distinct hash of the (mode before, operation, NMT cs, target class) sequence",
             "probes": ["nmt-reset", "api-reset", "node-stop", "nmt-foreign-target", "nmt-same-state", "nmt-unknown-cs", "mode4-p_sdo", "mode4-p_rpdo", "mode4-p_sync", "mode4-p_emcy", "mode4-p_tick", "mode2-p_rpdo", "mode2-p_sync", "mode3-p_sync", "mode1-p_sdo", "mode0-p_foreign"],
             "assumptions": ["NMT frames with DLC < 2 are not constrained; after CONodeStop and in STOPPED an unclaimed frame may reach the application callback at most once"]},
+    "C10": {"scenario": "hbprod", "level": "exploration", "runs": {"quick": 120000, "thorough": 6000000},
+            "rule": "one evaluation = one plan of 3-25 (thorough: 50) operations over {tick n, NMT command, 1017h write via SDO/API, SDO writes to TPDO event/inhibit times, 1005h, 1006h, 1016h, TPDO COB-ID, TPDO triggers, application timers, heartbeats of monitored nodes, CAN send failures} with timer frequency and all periods drawn per run; after every operation the (tick, state byte) list of frames on 700h+id is compared with the reference schedule, exact to the tick; non-trivial = more than 3 operations; distinct = distinct hash of (operation, mode, producer on/off, reconfigured object) sequence",
+            "probes": ["write-while-running", "write-while-off", "reset-while-running", "other-user-reconfigured", "hb-tick-collides-with-other-timer-user", "heartbeats-checked", "F5-send-failure-armed"],
+            "assumptions": ["strict regime; timer pool sized for the worst case (32); heartbeat times below one tick are not generated; send attempts count (a failed CAN send is not retried and not asked to be)"]},
 }
 
 LEVEL_TEXT = {
@@ -48,7 +52,8 @@ LEVEL_TEXT = {
     "C04": "Seeded exploration of arbitrary requests (all 256 command bytes, existing/absent/wrong-sub multiplexers, arbitrary payload) arriving in idle and in every non-idle server state reached by a conforming prefix; exact abort code in idle state, count/addressee/multiplexer/side effects in all states.",
     "C05": "Seeded exploration of arbitrary frame histories followed by [client abort | NMT reset] and a clean transfer that must succeed: recovery reachability (AG EF idle) sampled over histories; sampling, not explicit-state enumeration.",
     "C09": "Seeded exploration of NMT command / API / probe sequences against the CiA-301 slave state machine and a per-state gating table; every service is probed in every state after multi-step paths; sampling, not exhaustive to a depth bound.",
+    "C10": "Seeded exploration of histories mixing ticks, NMT commands, 1017h writes and reconfiguration of every other timer user; the tick-stamped bus log of heartbeat frames is compared with an exact reference schedule after every operation.",
 }
 _WIP = "check not built yet in this round (work in progress; see DESIGN.md section 5 for the planned scenario)"
-NOT_APPLICABLE = {p: _WIP for p in ["C01", "C10", "C11", "C12", "C13", "C14", "C15", "C16", "C17", "C18", "C19", "C20"]}
+NOT_APPLICABLE = {p: _WIP for p in ["C01", "C11", "C12", "C13", "C14", "C15", "C16", "C17", "C18", "C19", "C20"]}
 NOT_APPLICABLE["C06"] = "pure function of (dictionary, key, value, length): no schedule, clock, peer, fault or history enters it, so deterministic simulation has nothing to decide; deciding it needs input enumeration / bounded model checking, which is another technique (DESIGN.md section 5, C06)"
